@@ -404,6 +404,8 @@ static QINLINE void qt_loop_balance_inner(const size_t       start,
                 break;
             case ALIGNED:
                 qthread_empty(&sync.aligned[i]);
+                qwa[i].sync = sync.aligned;
+                break;
             case DONECOUNT:
                 qwa[i].sync = &sync.dc;
                 break;
